@@ -332,6 +332,7 @@ pub(crate) fn parse_enum(e: &ItemEnum, target_os: &[String]) -> Result<RustItem,
         .collect();
 
     let serde_rename_all = serde_rename_all(&e.attrs);
+    let serde_rename_all_fields = serde_rename_all_fields(&e.attrs);
 
     // TODO: we shouldn't lie and return a type alias when parsing an enum. this
     // is a temporary hack
@@ -360,7 +361,7 @@ pub(crate) fn parse_enum(e: &ItemEnum, target_os: &[String]) -> Result<RustItem,
         // Filter out variants we've been told to skip
         .filter(|v| !is_skipped(&v.attrs, target_os))
         .inspect(|v| debug!("\t\taccepted variant {}", v.ident))
-        .map(|v| parse_enum_variant(v, &serde_rename_all, target_os))
+        .map(|v| parse_enum_variant(v, &serde_rename_all, &serde_rename_all_fields, target_os))
         .collect::<Result<Vec<_>, _>>()?;
 
     // Check if the enum references itself recursively in any of its variants
@@ -423,6 +424,7 @@ pub(crate) fn parse_enum(e: &ItemEnum, target_os: &[String]) -> Result<RustItem,
 fn parse_enum_variant(
     v: &syn::Variant,
     enum_serde_rename_all: &Option<String>,
+    enum_serde_rename_all_fields: &Option<String>,
     target_os: &[String],
 ) -> Result<RustEnumVariant, ParseError> {
     let shared = RustEnumVariantShared {
@@ -433,9 +435,11 @@ fn parse_enum_variant(
     // Get the value of `#[serde(rename_all)]` for this specific variant rather
     // than the overall enum
     //
-    // The value of the attribute for the enum overall does not apply to enum
-    // variant fields.
-    let variant_serde_rename_all = serde_rename_all(&v.attrs);
+    // The `rename_all` of the enum overall does not apply to enum
+    // variant fields, but its `rename_all_fields` does, for every variant that has
+    // no `rename_all` of its own (serde_derive: variant rules `.or` container rules).
+    let variant_serde_rename_all =
+        serde_rename_all(&v.attrs).or_else(|| enum_serde_rename_all_fields.clone());
 
     match &v.fields {
         syn::Fields::Unit => Ok(RustEnumVariant::Unit(shared)),
@@ -589,6 +593,10 @@ pub(crate) fn has_typeshare_annotation(attrs: &[syn::Attribute]) -> bool {
 
 pub(crate) fn serde_rename_all(attrs: &[syn::Attribute]) -> Option<String> {
     get_name_value_meta_items(attrs, "rename_all", SERDE).next()
+}
+
+pub(crate) fn serde_rename_all_fields(attrs: &[syn::Attribute]) -> Option<String> {
+    get_name_value_meta_items(attrs, "rename_all_fields", SERDE).next()
 }
 
 pub(crate) fn get_serialized_as_type(attrs: &[syn::Attribute]) -> Option<String> {
